@@ -95,6 +95,7 @@ func init() {
 		rule("R5-groups", ruleWhoConstructs(groupOwners)).
 		rule("R5-completion-group", ruleCompletionGroup).
 		rule("R6-object-provenance", ruleObjProvenance("Promise", "Promise.patch")).
+		rule("R16-name-agreement", ruleNameAgreement).
 		rule("R6-cas", ruleCAS("ReadPromise", "CreatePromise", "CreatePromiseAndTask", "CompletePromise", "SearchPromises", "CreateCallback", "CreateSubscription"))
 
 	regProp("C02",
@@ -221,6 +222,9 @@ func init() {
 		rule("result-provenance", ruleResults(kindList("SearchPromises", "SearchSchedules"))).
 		rule("R9-command-provenance", ruleCmdProvenance("SearchPromisesCommand", "SearchSchedulesCommand")).
 		rule("R6-object-provenance", ruleObjProvenance("SearchPromisesRequest", "SearchSchedulesRequest")).
+		rule("R15-search-text", ruleSearchText(false)).
+		rule("R12-cursor", ruleCursorVerified).
+		rule("R12-request-asserts", ruleRequestAsserts).
 		rule("R6-cas", ruleCAS("SearchPromises"))
 }
 
